@@ -297,3 +297,24 @@ pub fn replay(_ctx: &RunCtx, case: &Value) -> Result<Option<Fail>, String> {
     let si = case.get("subject").and_then(|x| x.as_u64()).unwrap_or(0) as usize;
     Ok(check_template(p.get(si).ok_or("bad subject index")?, t, python).err())
 }
+
+/// fuzz entry: byte 0 picks the capture set and the expander; the rest is the template (taken as UTF-8 when it is
+/// valid UTF-8, otherwise decoded as a sequence of template fragments)
+pub fn fuzz_one(data: &[u8]) -> Option<(Value, Fail)> {
+    static PREP: std::sync::OnceLock<Vec<Prepared>> = std::sync::OnceLock::new();
+    let p = PREP.get_or_init(|| prepare().expect("subjects compile"));
+    let (&b0, rest) = data.split_first()?;
+    let si = (b0 as usize >> 1) % p.len();
+    let python = b0 & 1 == 1;
+    let t = match std::str::from_utf8(rest) {
+        Ok(s) => s.to_string(),
+        Err(_) => random_template(rest),
+    };
+    match check_template(&p[si], &t, python) {
+        Ok(_) => None,
+        Err(f) => {
+            let v = violation(p, si, python, &t, f);
+            Some((v.case, v.fail))
+        }
+    }
+}
